@@ -42,6 +42,12 @@ Theorem C12_idem : C12_idem_statement.
 Proof. exact TRS_trs_idem. Qed.
 Print Assumptions C12_idem.
 
+(* the attributes of a TRS are the decomposition of its final string: re-reading .trs gives the same
+   dictionary (twp, twp_num, twp_ns, rge, ..., sec, sec_num and the undefined marks), for EVERY argument *)
+Theorem C12_attributes_decompose : forall x : option str, trs_to_dict (Some (d_trs (trs_to_dict x))) = trs_to_dict x.
+Proof. exact trs_to_dict_idem. Qed.
+Print Assumptions C12_attributes_decompose.
+
 (* strictness, for EVERY non-empty string *)
 Theorem C12_strict : C12_strict_statement.
 Proof. exact TRS_strict. Qed.
